@@ -134,6 +134,56 @@ fn drive_shared(mut it: Iter<'_, Tracked>, sel: &[Obs], script: &[Step]) -> R<()
                     chk(if skip { "skip().rev()" } else { "step_by().rev()" }, Some(*g), Some(*w))?;
                 }
             }
+            Step::PanicSearch(k, back) => {
+                let (k, back) = (*k as usize, *back);
+                let mut calls = 0usize;
+                let r = {
+                    let it = &mut it;
+                    let calls = &mut calls;
+                    std::panic::catch_unwind(std::panic::AssertUnwindSafe(move || {
+                        let mut pred = |_: &&Tracked| {
+                            if *calls == k {
+                                std::panic::resume_unwind(Box::new(crate::interp::PredicatePanic));
+                            }
+                            *calls += 1;
+                            false
+                        };
+                        if back {
+                            it.rfind(&mut pred).is_some()
+                        } else {
+                            it.find(&mut pred).is_some()
+                        }
+                    }))
+                };
+                match r {
+                    Ok(found) => {
+                        if found || k < hi - lo {
+                            return Err(format!("{st:?}: the search returned {found} although the predicate must have panicked or rejected everything"));
+                        }
+                    }
+                    Err(p) => {
+                        if p.downcast_ref::<crate::interp::PredicatePanic>().is_none() {
+                            std::panic::resume_unwind(p);
+                        }
+                    }
+                }
+                // the iterator is still usable: what is left is a contiguous rest, cut at the end that was searched from
+                let left = it.len();
+                if left > hi - lo {
+                    return Err(format!("{st:?}: the iterator grew from {} to {left} elements", hi - lo));
+                }
+                crate::interp::side_dig(((hi - lo - left) as u64) << 1 | back as u64);
+                if back {
+                    hi = lo + left
+                } else {
+                    lo = hi - left
+                }
+                len_chk("iterator after a panic in the predicate", it.len(), it.size_hint(), hi - lo)?;
+                let mut c = it.clone();
+                for e in &sel[lo..hi] {
+                    chk("next() after a panic in the predicate", c.next(), Some(e))?;
+                }
+            }
             Step::FindMid | Step::RFindMid => {
                 if lo < hi {
                     let mid = lo + (hi - lo) / 2;
@@ -201,6 +251,21 @@ fn drive_shared(mut it: Iter<'_, Tracked>, sel: &[Obs], script: &[Step]) -> R<()
                     let mut c = it.clone();
                     let _ = c.by_ref().skip_while(|t| Some(idof(t)) != target).next();
                     after(c, "skip_while().next()", if n > 0 { &rem[mid + 1..] } else { &[] })?;
+                }
+                // value-dependent consumers over what is left
+                {
+                    let want_max = (0..n).max_by_key(|k| rem[*k].val).map(|k| &rem[k]);
+                    let want_min = (0..n).min_by_key(|k| rem[*k].val).map(|k| &rem[k]);
+                    chk("max()", it.clone().max(), want_max)?;
+                    chk("min()", it.clone().min(), want_min)?;
+                    chk("rev().min()", it.clone().rev().min(), (0..n).rev().min_by_key(|k| rem[*k].val).map(|k| &rem[k]))?;
+                    let sorted = rem.windows(2).all(|w| w[0].val <= w[1].val);
+                    if it.clone().is_sorted() != sorted || it.clone().is_sorted_by_key(|t| t.val()) != sorted {
+                        return Err(format!("is_sorted() = {} for values {:?}", it.clone().is_sorted(), rem.iter().map(|o| o.val).collect::<Vec<_>>()));
+                    }
+                    if !it.clone().eq(it.clone()) || it.clone().partial_cmp(it.clone()) != Some(std::cmp::Ordering::Equal) || it.clone().gt(it.clone()) {
+                        return Err("the iterator compared with its own clone is not equal".to_string());
+                    }
                 }
                 // ids ascend with creation order only by accident, so use addresses of the expected elements
                 let maxid = rem.iter().map(|o| o.id).max();
@@ -421,7 +486,18 @@ fn drive_mut(mut it: IterMut<'_, Tracked>, sel: &[Obs], script: &[Step], mut new
                 }
                 return Ok(writes);
             }
-            Step::Fork | Step::Search => {}
+            Step::Search => {
+                // consumes the mutable iterator through max() (last greatest) or min() (first least) and writes through the result
+                let mx = (hi - lo) % 2 == 0;
+                let want = if mx { (lo..hi).max_by_key(|k| sel[*k].val) } else { (lo..hi).min_by_key(|k| sel[*k].val) };
+                let g = if mx { it.max() } else { it.min() };
+                chk(if mx { "max()" } else { "min()" }, g.as_deref(), want.map(|k| &sel[k]))?;
+                if let (Some(t), Some(k)) = (g, want) {
+                    wr(t, k, &mut writes, &mut seen)?;
+                }
+                return Ok(writes);
+            }
+            Step::Fork | Step::PanicSearch(..) => {}
         }
     }
     len_chk("iterator", it.len(), it.size_hint(), hi - lo)?;
@@ -631,7 +707,7 @@ impl St {
                             let rem: Vec<u32> = before[lo..hi].iter().map(|m| m.0).collect();
                             debug_touches_only("the owning iterator", &rem, || it.debug_string())?;
                         }
-                        Step::Search => {}
+                        Step::Search | Step::PanicSearch(..) => {}
                         Step::FindMid | Step::RFindMid => {
                             if lo < hi {
                                 let mid = lo + (hi - lo) / 2;
